@@ -23,7 +23,7 @@ def instances(tier):
         dict(base, D=2, Dims=(1, 2), Torus=(True, False), TypeList=(((0, 0), (2, 4)), ((0, 1), (2, 4)), ((1, 0), (2, 2))),   # S=2: two channels per step
              Ops={"New", "BuildAppend", "Loss"}, MaxDepth=3, Orders=allp,
              LossGroup=tlc.Raw('{[p |-> <<2, 1>>, s |-> <<-1, 1>>], [p |-> <<1, 2>>, s |-> <<-1, 1>>], [p |-> <<2, 1>>, s |-> <<1, 1>>]}')),
-        dict(base, D=2, Dims=(1, 3), Torus=(False, False), TypeList=(((0, 0), (3, 2)), ((1, 1), (3, 2))),
+        dict(base, D=2, Dims=(1, 3), Torus=(False, False), TypeList=(((2, 0), (3, 2)), ((1, 1), (3, 2))),   # a k=2 block: the pixel norm runs over all tensor axes
              Ops={"New", "RoundTrip", "Loss"}, MaxDepth=4, Orders={(1, 2), (2, 1)},
              LossGroup=tlc.Raw('{[p |-> <<2, 1>>, s |-> <<1, -1>>], [p |-> <<1, 2>>, s |-> <<1, -1>>], [p |-> <<2, 1>>, s |-> <<-1, -1>>]}')),
         dict(base, D=3, Dims=(1, 2, 1), Torus=(True, True, False), TypeList=(((1, 0), (2, 2)), ((0, 1), (2, 6)), ((0, 0), (2, 6))),
